@@ -301,25 +301,24 @@ CALLS = ["f a b", "x=7 y=ab f", "f; echo st=$?"]
 # ------------------------------------------------------------------------------------------------ classes of known findings
 
 def classify(feat, verdict):
-    """known-finding id for a failing program, by its generator features (decidable from the input)"""
+    """known-finding id for a failing program, by its generator features (decidable from the input);
+    rarer classes first so that each open finding is seen reproducing"""
+    if "nested_subshell" in feat:
+        return "KF-C14-nested-subshell-arith"
+    if "procsub_arg" in feat:
+        return "KF-C14-procsub-double-paren"
+    if "for_no_in" in feat:
+        return "KF-C14-for-without-in"
+    if "pipe_amp_redir" in feat:
+        return "KF-C14-pipe-amp-glue"
     if "heredoc" in feat:
         return "KF-C14-heredoc-indent"
     if "multiline_word" in feat:
         return "KF-C14-multiline-word-indent"
     if "risky_redirs" in feat:
         return "KF-C14-redirect-list-glue"
-    if "for_no_in" in feat:
-        return "KF-C14-for-without-in"
-    if "pipe_amp_redir" in feat:
-        return "KF-C14-pipe-amp-glue"
-    if "procsub_arg" in feat:
-        return "KF-C14-procsub-double-paren"
-    if "nested_subshell" in feat:
-        return "KF-C14-nested-subshell-arith"
     return None
 
-
-# ------------------------------------------------------------------------------------------------ bash as second reader
 
 def first_diff(a, b):
     """index of the first differing (kind, text) pair"""
